@@ -166,7 +166,7 @@ class Check:
         self.pid = pid
         self.tier = tier
         self.seed = seed
-        self.replay = replay
+        self.replay = str(Path(replay).resolve()) if replay else None
         self.t0 = time.time()
         self.rundir = RUNS / pid
         if self.rundir.exists():
